@@ -17,6 +17,12 @@ pub mod mm5 {
 pub mod mm6 {
     average::define_moments!(M6, 6);
 }
+pub mod mm7 {
+    average::define_moments!(M7, 7);
+}
+pub mod mm9 {
+    average::define_moments!(M9, 9);
+}
 pub mod mm8 {
     average::define_moments!(M8, 8);
 }
@@ -27,7 +33,9 @@ pub use mm10::M10;
 pub use mm4::M4;
 pub use mm5::M5;
 pub use mm6::M6;
+pub use mm7::M7;
 pub use mm8::M8;
+pub use mm9::M9;
 
 /// (accessor name, value) for every public statistic accessor.
 pub type Snapshot = Vec<(String, f64)>;
@@ -436,7 +444,9 @@ macro_rules! impl_moments {
 impl_moments!(Moments4, "Moments4", 4);
 impl_moments!(M5, "M5", 5);
 impl_moments!(M6, "M6", 6);
+impl_moments!(M7, "M7", 7);
 impl_moments!(M8, "M8", 8);
+impl_moments!(M9, "M9", 9);
 impl_moments!(M10, "M10", 10);
 
 impl Uni for Min {
